@@ -33,7 +33,7 @@ def functions():
 
 def bounds(tier):
     q = tier == "quick"
-    return {"script_events": "6 from a fresh start, 5 after a prefix" if q else "9 / 8", "fault_budget": 2 if q else 3, "settling_horizon_s": 45.0,
+    return {"script_events": "6 from a fresh start, 5 after a prefix" if q else "7 / 6", "fault_budget": 2, "settling_horizon_s": 45.0,
             "outside": "unbounded fault sequences; liveness in wall-clock time"}
 
 
@@ -44,12 +44,12 @@ def limits(tier):
 def jobs(tier):
     q = tier == "quick"
     out = [
-        {"K": 6 if q else 9, "faults": 2 if q else 3, "leader": True, "stop": False},
-        {"K": 6 if q else 9, "faults": 2 if q else 3, "leader": False, "stop": False},
+        {"K": 6 if q else 7, "faults": 2, "leader": True, "stop": False},
+        {"K": 6 if q else 7, "faults": 2, "leader": False, "stop": False},
     ]
     # deep states reached by concrete prefixes, then a symbolic suffix
     for prefix, ac in (("stable", False), ("stable-hb", False), ("stable-commit-hb", True), ("rejoin-with-hb-pending", True)):
-        out.append({"K": 5 if q else 8, "faults": 2, "leader": False, "stop": False, "prefix": prefix, "autocommit": ac})
+        out.append({"K": 5 if q else 6, "faults": 2, "leader": False, "stop": False, "prefix": prefix, "autocommit": ac})
     return out
 
 
